@@ -572,7 +572,14 @@ class ExprMixin:
                     continue
                 j = S.norm_index(i, base)
                 if isinstance(base.s, Seq):
-                    res.append((s1, V(base.s.elem, base.t[j.t])))
+                    x = V(base.s.elem, base.t[j.t])
+                    if self.folds_for(base.s):
+                        # element facts of the folds: base = pre ++ [x] ++ post
+                        pre_, post_ = self.fresh(base.s, "pre", None), self.fresh(base.s, "post", None)
+                        s1.assume(pre_.t == z3.SubSeq(base.t, 0, j.t))
+                        s1.assume(post_.t == z3.SubSeq(base.t, j.t + 1, z3.Length(base.t) - j.t - 1))
+                        self.note_concat(s1, base, [("seq", pre_), ("unit", x), ("seq", post_)])
+                    res.append((s1, x))
                 else:
                     if base.s == BYTES:
                         res.append((s1, V(INT, z3.StrToCode(z3.SubSeq(base.t, j.t, 1)))))
